@@ -55,10 +55,26 @@ def unreported_hang(hist):
     return None
 
 
+_RETRIED = ("E1", "E2", "OSError", "F1", "TimeoutError", "FileNotFoundError")   # Exceptions: what retry retries
+
+
+def _transient(f, limit):
+    """An injected failure that the retry policy of the run absorbs: it fails the first `until` attempts only, with
+    an Exception, and the run allows more attempts than that."""
+    return f.get("until") is not None and f["until"] < limit and f.get("exc", "E1") in _RETRIED
+
+
 def _op_has_faults(desc, rec):
+    from model.machine import retry_attempts
+
     f = rec.op.get("faults") or {}
-    if f.get("calls") or f.get("cfn") or f.get("stores") or f.get("cut_at") or f.get("interrupt_at") or f.get("interrupt_at_op") \
-            or f.get("thread_start_fail"):
+    if f.get("cfn") or f.get("cut_at") or f.get("interrupt_at") or f.get("interrupt_at_op") or f.get("thread_start_fail"):
+        return True
+    limit = retry_attempts(rec.op.get("cfg", {}).get("retry"))
+    # (failures that are all transient within the retry budget do not count: such a run has to succeed)
+    if any(not _transient(x, limit) for x in (f.get("calls") or {}).values()):
+        return True
+    if any(not _transient(x, limit) for x in (f.get("stores") or ())):
         return True
     cfg = rec.op.get("cfg", {})
     if cfg.get("progress") in ("rec2fail", "bundled-fail", "bundled-sinkfail"):
@@ -82,15 +98,18 @@ def unreported_breakage(desc, hist):
         if r.aborted:
             continue
         deaths = sim.thread_deaths
-        if r.op.get("cfg", {}).get("progress") == "bundled-sinkfail":
+        if r.op.get("cfg", {}).get("progress") in ("bundled-sinkfail", "mixed-sinkfail"):
             deaths = [d for d in deaths if "SinkError" not in d[2]]
         if deaths:
             return dict(oracle="thread-died", msg=f"a thread created by run died with an exception: {deaths[:3]}",
                         tags={"safety_net": True})
         if r.exc is not None and not _op_has_faults(desc, r):
             cause = getattr(r.exc, "__cause__", None)
-            return dict(oracle="spurious-failure", msg=f"a run without any injected fault raised {r.exc!r:.300} / cause "
-                                                       f"{cause!r:.200}", tags={"safety_net": True})
+            ff = r.op.get("faults") or {}
+            what = ("a run whose only injected failures are transient within its retry budget"
+                    if (ff.get("calls") or ff.get("stores")) else "a run without any injected fault")
+            return dict(oracle="spurious-failure", msg=f"{what} raised {r.exc!r:.300} / cause {cause!r:.200}",
+                        tags={"safety_net": True})
     return None
 
 
